@@ -22,7 +22,32 @@ let parse_dop t = match t with
   | ["SLB";i;j;l;f] -> SetLabel (ni i, ni j, zi l, f = "1")
   | ["DD"] -> RemoveDuplicates
   | _ -> failwith ("bad op: " ^ String.concat " " t)
+let parse_uop t = match t with
+  | ["A";i;j;l;f] -> UAdd (ni i, ni j, zi l, f = "1")
+  | ["R";i;j] -> URemove (ni i, ni j)
+  | ["SL"] -> USelfLoops | ["V";v] -> URemoveVertex (ni v) | ["CL"] -> UClear
+  | ["RZ";n] -> UResize (ni n)
+  | ["SLB";i;j;l;f] -> USetLabel (ni i, ni j, zi l, f = "1")
+  | ["DD"] -> URemoveDuplicates
+  | _ -> failwith ("bad op: " ^ String.concat " " t)
+let fb f = (f = "1")
+let parse_mop t = match t with
+  | ["A";i;j;f] -> MAdd (ni i, ni j, fb f) | ["AR";i;j;f] -> MAddRecip (ni i, ni j, fb f)
+  | ["MA";i;j;k;f] -> MAddMulti (ni i, ni j, zi k, fb f) | ["MAR";i;j;k;f] -> MAddRecipMulti (ni i, ni j, zi k, fb f)
+  | ["R";i;j] -> MRemove (ni i, ni j) | ["MR";i;j;k] -> MRemoveMulti (ni i, ni j, zi k) | ["MS";i;j;k] -> MSet (ni i, ni j, zi k)
+  | ["SL"] -> MSelfLoops | ["V";v] -> MRemoveVertex (ni v) | ["CL"] -> MClear | ["RZ";n] -> MResize (ni n) | ["DD"] -> MRemoveDuplicates
+  | _ -> failwith ("bad op: " ^ String.concat " " t)
+let parse_wop t = match t with
+  | ["WA";i;j;w;f] -> WAdd (ni i, ni j, zi w, fb f) | ["R";i;j] -> WRemove (ni i, ni j) | ["WS";i;j;w] -> WSet (ni i, ni j, zi w)
+  | ["SL"] -> WSelfLoops | ["V";v] -> WRemoveVertex (ni v) | ["CL"] -> WClear | ["RZ";n] -> WResize (ni n) | ["DD"] -> WRemoveDuplicates
+  | _ -> failwith ("bad op: " ^ String.concat " " t)
 let variant = ref repaired
+let um_set0 = ref true
+let uw_canon = ref true
+let rec emit_ms m s = match m, s with
+  | [], _ -> ()
+  | x :: m', [] -> zline "M" x; print_string "S -\n"; emit_ms m' []
+  | x :: m', y :: s' -> zline "M" x; (match y with Some v -> zline "S" v | None -> print_string "S -\n"); emit_ms m' s'
 let run_case line =
   match String.index_opt line ':' with
   | None -> failwith ("bad case: " ^ line)
@@ -32,15 +57,17 @@ let run_case line =
     (match hd with
      | ["D"; lk; n] ->
        let hs = lk <> "none" in let ops = List.map parse_dop ops in
-       let m = d_trace hs !variant (ni n) ops and s = d_spec_trace hs (ni n) ops in
-       let rec go m s = match m, s with
-         | [], _ -> ()
-         | x :: m', [] -> zline "M" x; print_string "S -\n"; go m' []
-         | x :: m', y :: s' -> zline "M" x; (match y with Some v -> zline "S" v | None -> print_string "S -\n"); go m' s' in
-       go m s
+       emit_ms (d_trace hs !variant (ni n) ops) (d_spec_trace hs (ni n) ops)
+     | ["U"; lk; n] ->
+       let hs = lk <> "none" in let ops = List.map parse_uop ops in
+       emit_ms (u_trace_z hs !variant (ni n) ops) (u_spec_trace hs (ni n) ops)
+     | ["DM"; _; n] -> let ops = List.map parse_mop ops in emit_ms (dm_trace_z !variant (ni n) ops) (m_spec_trace false (ni n) ops)
+     | ["UM"; _; n] -> let ops = List.map parse_mop ops in emit_ms (um_trace_z !variant !um_set0 (ni n) ops) (m_spec_trace true (ni n) ops)
+     | ["DW"; _; n] -> let ops = List.map parse_wop ops in emit_ms (dw_trace_z !variant (ni n) ops) (w_spec_trace false (ni n) ops)
+     | ["UW"; _; n] -> let ops = List.map parse_wop ops in emit_ms (uw_trace_z !variant !uw_canon (ni n) ops) (w_spec_trace true (ni n) ops)
      | _ -> failwith ("unknown class in: " ^ line))
 let () =
-  Array.iter (fun a -> if a = "pinned" then variant := pinned) Sys.argv;
+  Array.iter (fun a -> if a = "pinned" then (variant := pinned; um_set0 := false; uw_canon := false)) Sys.argv;
   (try while true do
      let line = input_line stdin in
      if String.length line > 5 && String.sub line 0 5 = "CASE " then begin
